@@ -9,6 +9,12 @@ every single step (`stepLocal`): all programs, all guard outcomes, all flags —
 particular with and without `--force` / `--force-all` / `--yes` — and all interleavings.
 Tie: the `sched` correspondence replays the event log of the real executor through the same
 `replay`; `guardedNoCmd` is also evaluated directly on the implementation's event log.
+
+Which statements say what (audit, session 3).  `C13_early`, `C13_platform_skip_first`, `C13_guard_order`, `C13_precond`,
+`C13_prompt`, `C13_guardsPassed_disabled`, `C13_force_only_upToDate` are statements about ONE step (`freshAct`,
+`stepLocal`): they restate the guards of the acceptor, in the order `SchedTie.runTask_skeleton` pins for `RunTask`;
+that the real executor obeys them is the acceptance of its logs (a guarded task that ran a command, or a guard asked
+out of order, is a rejected log).  Trace-level: `C13_guarded_state`, `C13_no_cmd`, `C13_through_*`.
 -/
 namespace Props.C13
 open TaskModel.Sched.S7
@@ -16,17 +22,20 @@ open TaskModel.Sched
 
 /-! ## guards decided at `enter`: unknown task, platform, `requires`, enum -/
 
-/-- the result classes of the early guards, in the order the code checks them -/
+/-- the result classes of the early guards, in the order the code checks them (`SchedTie.runTask_skeleton`:
+platform, required variables, compilation, allowed values): each line holds WHATEVER the guards
+after it would say — the first failing guard alone decides -/
 theorem C13_early_classes (d : TaskDef) :
     (d.platformOk = false → earlyRes d = some .ok) ∧
     (d.platformOk = true → d.requiresOk = false → earlyRes d = some (.typed 206)) ∧
-    (d.platformOk = true → d.requiresOk = true → d.enumOk = false → earlyRes d = some (.typed 207)) := by
+    (d.platformOk = true → d.requiresOk = true → d.compileOk = false → earlyRes d = some .generic) ∧
+    (d.platformOk = true → d.requiresOk = true → d.compileOk = true → d.enumOk = false → earlyRes d = some (.typed 207)) := by
   unfold earlyRes
-  cases d.platformOk <;> cases d.requiresOk <;> cases d.enumOk <;> simp
+  cases d.platformOk <;> cases d.requiresOk <;> cases d.compileOk <;> cases d.enumOk <;> simp
 
 /-- **C13 (early guards).** If the platform is excluded (result `ok`: skipped silently
-and successfully), a required variable is missing (206) or outside its enum (207), the
-activation is born with that result: it takes no slot, starts nothing, does not count as a
+and successfully), a required variable is missing (206), the task does not compile (a plain
+error) or a variable is outside its enum (207), the activation is born with that result: it takes no slot, starts nothing, does not count as a
 call of the task, and the only event it can perform is `exit`, returning that result. -/
 theorem C13_early (P : Program) (F : Flags) (c : Config) (kind : Kind) (t : Nat) (d : TaskDef) (r : Res)
     (hd : P[t]? = some d) (hr : earlyRes d = some r) :
@@ -44,12 +53,58 @@ theorem C13_early (P : Program) (F : Flags) (c : Config) (kind : Kind) (t : Nat)
     unfold bumpCalls
     rw [hd]
     simp only [earlyBlocked, Bool.or_eq_true, Bool.not_eq_true'] at hb
-    have : (d.platformOk && d.requiresOk && d.enumOk) = false := by
-      rcases hb with (hb | hb) | hb <;> simp [hb]
+    have : (d.platformOk && d.requiresOk && d.compileOk && d.enumOk) = false := by
+      rcases hb with ((hb | hb) | hb) | hb <;> simp [hb]
     simp [this]
   · intro o ev y eff hst
     obtain ⟨e1, e2, e3⟩ := stepLocal_early F o _ ev y eff h1 hst
     exact ⟨e1, e2, by rw [e3], by rw [e3]; exact h2, by rw [e3]; exact hs, by rw [e3]; exact hh⟩
+
+/-- **C13 (the platform check comes first).** An activation of a task that `platforms:` excludes
+exits with success — skipped silently — without any other guard being asked, WHATEVER the other
+guards would say (a missing required variable, a template error, a value outside its enum, a failing
+precondition, a prompt …): it is born with result `ok`, takes no slot, does not count as a call,
+starts nothing, and the only event it can perform is `exit`. -/
+theorem C13_platform_skip_first (P : Program) (F : Flags) (c : Config) (kind : Kind) (t : Nat) (d : TaskDef)
+    (hd : P[t]? = some d) (hp : d.platformOk = false) :
+    (freshAct P F c kind t).phase = .early ∧ (freshAct P F c kind t).res = .ok ∧
+    (freshAct P F c kind t).started = [] ∧ (freshAct P F c kind t).holds = false ∧
+    bumpCalls P c t = c ∧
+    (∀ o ev y eff, stepLocal F o (freshAct P F c kind t) ev = some (y, eff) →
+      ev = .exit ∧ eff = .none ∧ y.phase = .done ∧ y.res = .ok ∧ y.started = [] ∧ y.holds = false) :=
+  C13_early P F c kind t d .ok hd ((C13_early_classes d).1 hp)
+
+/-- non-vacuity: a task excluded by `platforms:` that ALSO lacks a required variable, does not
+compile, has a value outside its enum, a failing precondition and a prompt — skipped with success -/
+example : (freshAct [{ platformOk := false, requiresOk := false, compileOk := false, enumOk := false,
+                       precondOk := false, prompt := true, cmds := [.shell 0 false false] }] {} (init 1) (.top 0) 0).res = .ok ∧
+          (freshAct [{ platformOk := false, requiresOk := false, compileOk := false, enumOk := false,
+                       precondOk := false, prompt := true, cmds := [.shell 0 false false] }] {} (init 1) (.top 0) 0).phase = .early := by
+  decide
+
+/-- **C13 (order of the per-call guards).** With the platform admitted, a missing required variable
+wins (206) over a template error and over a value outside its enum; a task that does not compile
+fails with a plain error before its allowed values are looked at, before it counts as a call and
+before it takes a slot or can be deduplicated — so before any of its commands (cf. `C13_early`). -/
+theorem C13_guard_order (P : Program) (F : Flags) (c : Config) (kind : Kind) (t : Nat) (d : TaskDef)
+    (hd : P[t]? = some d) (hp : d.platformOk = true) :
+    (d.requiresOk = false → (freshAct P F c kind t).res = .typed 206) ∧
+    (d.requiresOk = true → d.compileOk = false → (freshAct P F c kind t).res = .generic) ∧
+    (d.requiresOk = true → d.compileOk = true → d.enumOk = false → (freshAct P F c kind t).res = .typed 207) ∧
+    (earlyBlocked d = true → (freshAct P F c kind t).phase = .early ∧ bumpCalls P c t = c) := by
+  obtain ⟨_, h2, h3, h4⟩ := C13_early_classes d
+  refine ⟨fun h => (C13_early P F c kind t d _ hd (h2 hp h)).2.1,
+          fun h h' => (C13_early P F c kind t d _ hd (h3 hp h h')).2.1,
+          fun h h' h'' => (C13_early P F c kind t d _ hd (h4 hp h h' h'')).2.1, ?_⟩
+  intro hb
+  have hs : (earlyRes d).isSome = true := by rw [earlyRes_some]; exact hb
+  obtain ⟨r, hr⟩ := Option.isSome_iff_exists.mp hs
+  have := C13_early P F c kind t d r hd hr
+  exact ⟨this.1, this.2.2.2.2.1⟩
+
+example : (freshAct [{ requiresOk := false, compileOk := false, enumOk := false }] {} (init 1) (.top 0) 0).res = .typed 206 ∧
+          (freshAct [{ compileOk := false, enumOk := false }] {} (init 1) (.top 0) 0).res = .generic ∧
+          (freshAct [{ enumOk := false }] {} (init 1) (.top 0) 0).res = .typed 207 := by decide
 
 /-- **C13 (unknown task).** A reference to a task that does not exist gives 200 at once. -/
 theorem C13_unknown (P : Program) (F : Flags) (c : Config) (kind : Kind) (t : Nat) (h : P[t]? = none) :
